@@ -24,7 +24,7 @@ CHECKS = {
          "DESIGN.md section 7, C03"),
  "C04": ("exploration",
          "bounded exhaustive enumeration of derivations of a reference grammar, each under every printing, through both parse entry points",
-         "All spines of <= 2 (thorough 3, and 4-5 over the reduced context set) compound-statement contexts (17 contexts: each body of if/else/while/for/case/default/gate/def as block or single statement) around ~65 leaf statement templates and (to depth 1, thorough 2) around 268 grid leaves (17 quantum statement forms x 8 operand forms, 6 declaration qualifiers x 16 types, 12 assignment operators x 3 target forms), all sequences of 2 (thorough 3) statements, all two- and three-operator expression trees over 19 binary and 3 unary operators in 12 expression positions, printed with minimal, full and redundant parentheses and 9 uniform separator flavours (one with a non-ASCII line comment, one with CR LF, vertical tab and form feed); plus 54 statement texts of constructs outside the model grammar that the parser supports (arrays, extern, calibration, old-style registers, durationof, alias concatenation, built-in calls) in 5 positions x 6 separator flavours; any diagnostic of SourceFile::parse or parse_check_lex is a violation. Every context x construct pair is present by construction.",
+         "All spines of <= 2 (thorough 3, and 4-5 over the reduced context set) compound-statement contexts (17 contexts: each body of if/else/while/for/case/default/gate/def as block or single statement) around ~65 leaf statement templates and (to depth 1, thorough 2) around 268 grid leaves (17 quantum statement forms x 8 operand forms, 6 declaration qualifiers x 16 types, 12 assignment operators x 3 target forms), all sequences of 2 (thorough 3) statements, all two- and three-operator expression trees over 19 binary and 3 unary operators in 12 expression positions, printed with minimal, full and redundant parentheses and 10 uniform separator flavours (among them a non-ASCII line comment, CR LF with vertical tab and form feed, a block comment ending in **/); plus 54 statement texts of constructs outside the model grammar that the parser supports (arrays, extern, calibration, old-style registers, durationof, alias concatenation, built-in calls) in 5 positions x 6 separator flavours; any diagnostic of SourceFile::parse or parse_check_lex is a violation. Every context x construct pair is present by construction.",
          "The model grammar is listed in DESIGN.md 4.4; arrow measurement and box statements, which the parser does not accept, are outside the claim. Genuine rejections are recorded as known findings keyed by message + construct (DESIGN.md 10.4); repaired ones are in 10.3.",
          "DESIGN.md section 7, C04"),
  "C05": ("exploration",
@@ -89,12 +89,12 @@ CHECKS = {
          "DESIGN.md section 7, C16"),
  "C17": ("exploration",
          "exhaustive enumeration of relational variants (layouts within a gap-deviation bound, renamings, all split points, repeated analysis) of every generated program; differential equality with no hand-written expected value",
-         "Every leaf template alone and inside each of 17 contexts after its declarations, every leaf behind one or two annotation lines, supported grid leaves, statement sequences (with annotation lines) and (thorough) programs with one injected semantic fault are analysed under: the 9 uniform layouts and every layout deviating from the default in <= 1 gap (thorough <= 2 gaps for short statements) of the statements after the prelude with each of 8 separator flavours (all gaps for the first program); 4 fixed injective renamings of all user identifiers (ASCII, leading underscore, Unicode, keyword-prefixed) plus rotations, reversal and every adjacent swap of the identifiers among themselves; every split at a top-level statement boundary (also directly after annotation lines); and twice unchanged. Graph equality (PartialEq), symbol table equality up to the renaming, equal diagnostic kinds (up to the renaming), prefix property for statements / symbols / diagnostics, and full equality including positions for the repeated run.",
+         "Every leaf template alone and inside each of 17 contexts after its declarations, every leaf behind one or two annotation lines, supported grid leaves, statement sequences (with annotation lines) and (thorough) programs with one injected semantic fault are analysed under: the 10 uniform layouts and every layout deviating from the default in <= 1 gap (thorough <= 2 gaps for short statements) of the statements after the prelude with each of 9 separator flavours (all gaps for the first program); 4 fixed injective renamings of all user identifiers (ASCII, leading underscore, Unicode, keyword-prefixed) plus rotations, reversal and every adjacent swap of the identifiers among themselves; every split at a top-level statement boundary (also directly after annotation lines); and twice unchanged. Graph equality (PartialEq), symbol table equality up to the renaming, equal diagnostic kinds (up to the renaming), prefix property for statements / symbols / diagnostics, and full equality including positions for the repeated run.",
          "Layouts beyond the deviation bound and renamings beyond the listed families are not covered. Programs not analysed (rejected or panicking) are skipped and counted.",
          "DESIGN.md section 7, C17"),
  "C18": ("exploration",
          "exhaustive enumeration of file-system arrangements x search lists x resolution modes x entry points x main programs against a reference resolver and the analysis of the textually inlined program",
-         "Real directory trees are built under /verif/.work: every assignment of the include files to subsets of 2 (thorough 3) search directories with directory-specific contents (so the directory picked is observable in the graph), file b in 5 flavours (own symbol, uses a's symbol, includes a, syntax fault, lexical fault), every search list that is a permutation of a subset of the directories, given explicitly (with QASM3_PATH set to the reverse order, which must be ignored), through QASM3_PATH only, or not at all, both entry points (string and file), and 23 main programs (include first / between declarations / used afterwards / name clash / two files in both orders / twice / below global scope in if and def / missing / with stdgates / missing in the middle / absolute path / nested / invalid escape / no path / the standard library between two real includes / annotation lines before an include in the middle and at the end), with and without a decoy file named stdgates.inc (benign or faulty) in every directory. Oracles: graph and symbols equal those of the inlined text, diagnostics equal as multiset plus exactly the predicted FileNotFound / IncludeNotInGlobalScope ones, the list tagged with each resolved canonical path holds the diagnostics of that file's own text, faults in the main text or in a file that is actually read gate analysis, no panic.",
+         "Real directory trees are built under /verif/.work: every assignment of the include files to subsets of 2 (thorough 3) search directories with directory-specific contents (so the directory picked is observable in the graph), file b in 5 flavours (own symbol, uses a's symbol, includes a, syntax fault, lexical fault), every search list that is a permutation of a subset of the directories, given explicitly (with QASM3_PATH set to the reverse order, which must be ignored), through QASM3_PATH only, or not at all, both entry points (string and file), and 25 main programs (include first / between declarations / used afterwards / name clash / two files in both orders / twice / below global scope in if and def / missing / with stdgates / missing in the middle / absolute path / nested / invalid escape / no path / the standard library between two real includes / annotation lines before an include in the middle and at the end), with and without a decoy file named stdgates.inc (benign or faulty) in every directory. Oracles: graph and symbols equal those of the inlined text, diagnostics equal as multiset plus exactly the predicted FileNotFound / IncludeNotInGlobalScope ones, the list tagged with each resolved canonical path holds the diagnostics of that file's own text, faults in the main text or in a file that is actually read gate analysis, no panic.",
          "Include cycles are not generated (outside the statement). Chains of nested includes of depth 1-20 (thorough 70) form a second space (F-CHAIN). The environment variable is set and cleared around each configuration inside single-threaded worker processes.",
          "DESIGN.md section 7, C18"),
  "C19": ("model_checking",
